@@ -259,6 +259,20 @@ def main(argv: list[str]) -> int:
             return 0 if ok else 1
         mod.run(ctx)
     except Exception as e:  # noqa
+        import signal
+        if isinstance(e, WorkerDied) and not args.replay and e.signum in (
+                signal.SIGSEGV, signal.SIGABRT, signal.SIGBUS,
+                signal.SIGILL, signal.SIGFPE):
+            # The interpreter itself crashed while executing the library
+            # on an input of the enumeration: memory was corrupted. (A
+            # worker killed from outside, SIGKILL/SIGTERM, is not this.)
+            ctx.violation(
+                f"crash|{e.fn}|{e.signame}",
+                f"the process executing the library code died with "
+                f"{e.signame} (memory corruption) while running job "
+                f"{repr(e.item)[:600]} of {e.fn}",
+                {"crash": e.signame, "worker": e.fn,
+                 "job": repr(e.item)[:2000]})
         if not ctx.violations or args.replay:
             print(f"HARNESS-ERROR property={prop}: {type(e).__name__}: {e}",
                   flush=True)
@@ -293,10 +307,132 @@ def main(argv: list[str]) -> int:
     return 1 if ctx.violations else 0
 
 
+class WorkerDied(Exception):
+    """A forked worker executing the real code was killed by a signal."""
+
+    def __init__(self, fn, item, signum):
+        import signal
+        try:
+            name = signal.Signals(signum).name
+        except ValueError:
+            name = f"signal {signum}"
+        self.fn = getattr(fn, "__name__", str(fn))
+        self.item = item
+        self.signum = signum
+        self.signame = name
+        super().__init__(f"worker running {self.fn} died with {name} on "
+                         f"job {repr(item)[:400]}")
+
+
+def _pmap_worker(fn, conn):
+    while True:
+        try:
+            task = conn.recv()
+        except EOFError:
+            return
+        if task is None:
+            return
+        out = []
+        try:
+            for idx, item in task:
+                out.append((idx, fn(item)))
+            conn.send(("done", out))
+        except BaseException as e:  # noqa
+            import pickle
+            try:
+                pickle.loads(pickle.dumps(e))
+                conn.send(("error", e, traceback.format_exc()))
+            except Exception:  # noqa
+                conn.send(("error", RuntimeError(
+                    f"{type(e).__name__}: {e}"), traceback.format_exc()))
+
+
 def pmap(fn: Callable, items: list, jobs: int, chunksize: int = 1):
-    """Map over items in forked worker processes, preserving order."""
+    """
+    Map over items in forked worker processes, preserving order.
+
+    Unlike multiprocessing.Pool.map this does not hang when a worker dies
+    (a segmentation fault inside compiled code): WorkerDied is raised and
+    names the job the worker was executing.
+    """
     import multiprocessing as mp
+    from multiprocessing.connection import wait
+    items = list(items)
     if jobs <= 1 or len(items) <= 1:
         return [fn(i) for i in items]
-    with mp.get_context("fork").Pool(min(jobs, len(items))) as pool:
-        return pool.map(fn, items, chunksize)
+    mpc = mp.get_context("fork")
+    chunksize = max(1, chunksize)
+    tasks = [[(i, items[i]) for i in range(a, min(a + chunksize,
+                                                  len(items)))]
+             for a in range(0, len(items), chunksize)]
+    tasks.reverse()
+    results = [None] * len(items)
+    workers = []
+    failure = None
+    try:
+        for _ in range(min(jobs, len(tasks))):
+            pc, cc = mpc.Pipe(duplex=True)
+            pr = mpc.Process(target=_pmap_worker, args=(fn, cc), daemon=True)
+            pr.start()
+            cc.close()
+            workers.append([pr, pc, None])
+        for w in workers:
+            w[2] = tasks.pop()
+            w[1].send(w[2])
+        busy = len(workers)
+        while busy and failure is None:
+            ready = wait([w[1] for w in workers if w[2] is not None]
+                         + [w[0].sentinel for w in workers
+                            if w[2] is not None])
+            for w in workers:
+                if w[2] is None or failure is not None:
+                    continue
+                if w[1] in ready or w[0].sentinel in ready:
+                    msg = None
+                    try:
+                        if w[1].poll(0):
+                            msg = w[1].recv()
+                    except (EOFError, OSError):
+                        msg = None
+                    if msg is None:
+                        if w[0].sentinel in ready or not w[0].is_alive():
+                            w[0].join()
+                            code = w[0].exitcode
+                            failure = WorkerDied(
+                                fn, w[2][0][1] if len(w[2]) == 1
+                                else [t[1] for t in w[2]],
+                                -code if code is not None and code < 0
+                                else 0)
+                        continue
+                    if msg[0] == "error":
+                        failure = msg[1]
+                        try:
+                            failure.remote_traceback = msg[2]
+                        except Exception:  # noqa
+                            pass
+                        continue
+                    for idx, r in msg[1]:
+                        results[idx] = r
+                    if tasks:
+                        w[2] = tasks.pop()
+                        w[1].send(w[2])
+                    else:
+                        w[2] = None
+                        busy -= 1
+                        w[1].send(None)
+    finally:
+        for pr, pc, _ in workers:
+            if failure is not None and pr.is_alive():
+                pr.terminate()
+            try:
+                pc.close()
+            except OSError:
+                pass
+        for pr, _, _ in workers:
+            pr.join(5)
+            if pr.is_alive():
+                pr.kill()
+                pr.join()
+    if failure is not None:
+        raise failure
+    return results
